@@ -52,6 +52,8 @@ func main() {
 		cmdSimple(fs, os.Args[2:])
 	case "conc":
 		cmdConc(fs, os.Args[2:])
+	case "crash":
+		cmdCrash(fs, os.Args[2:])
 	default:
 		fmt.Fprintf(os.Stderr, "harness: unknown subcommand %q\n", sub)
 		os.Exit(2)
